@@ -286,6 +286,49 @@ Proof.
   - exists (BEmpty s). split; [reflexivity|]. destruct HV as [_ [Hr _]]. split; [exact Hr|apply R_refl].
 Qed.
 
+(* (fix F21) ... and the discard reports that it reached the end of the body *)
+Lemma drain_ok_step fuel b : match b with BEof _ | BEmpty _ => False | _ => True end ->
+  drain_ok (S fuel) b = match body_read 1024 b with
+                        | RErr _ _ => false
+                        | ROk [] _ => true
+                        | ROk _ b' => drain_ok fuel b'
+                        end.
+Proof. destruct b; intros H; try contradiction; reflexivity. Qed.
+
+Lemma drain_ok_VB fuel : forall b acc p q, VB b acc p -> p = acc ++ q -> (length q < fuel)%nat ->
+  drain_ok fuel (bext b) = true.
+Proof.
+  induction fuel as [|fuel IH]; intros b acc p q HV Hp Hf; [lia|].
+  destruct b as [r|c|s|s].
+  - destruct (body_read_VB 1024 (BFixed r) acc p ltac:(lia) HV) as [out [b1 [H1 [H2 [HV1 [Hlen Hnil]]]]]].
+    change (bext (BFixed r)) with (BFixed (fext later r)) in *.
+    rewrite drain_ok_step by exact I. rewrite H2. destruct out as [|o out]; [reflexivity|].
+    remember (o :: out) as O eqn:EO.
+    destruct (VB_rest _ _ _ HV1) as [q' [Hq' _]].
+    assert (Hqq : q = O ++ q').
+    { apply (app_inv_head acc). rewrite <- Hp, Hq', app_assoc. reflexivity. }
+    apply (IH b1 (acc ++ O) p q' HV1 Hq').
+    rewrite Hqq, app_length in Hf. subst O. cbn [length] in Hf. lia.
+  - destruct (body_read_VB 1024 (BChunked c) acc p ltac:(lia) HV) as [out [b1 [H1 [H2 [HV1 [Hlen Hnil]]]]]].
+    change (bext (BChunked c)) with (BChunked (cext later c)) in *.
+    rewrite drain_ok_step by exact I. rewrite H2. destruct out as [|o out]; [reflexivity|].
+    remember (o :: out) as O eqn:EO.
+    destruct (VB_rest _ _ _ HV1) as [q' [Hq' _]].
+    assert (Hqq : q = O ++ q').
+    { apply (app_inv_head acc). rewrite <- Hp, Hq', app_assoc. reflexivity. }
+    apply (IH b1 (acc ++ O) p q' HV1 Hq').
+    rewrite Hqq, app_length in Hf. subst O. cbn [length] in Hf. lia.
+  - destruct HV.
+  - reflexivity.
+Qed.
+
+Lemma located_VB b acc p : VB b acc p -> located false (bext b) = true.
+Proof.
+  intros HV. destruct (VB_rest _ _ _ HV) as [q [Hq Hlen]].
+  unfold located. rewrite body_fuel_bext. cbn [negb andb].
+  exact (drain_ok_VB (body_fuel b) b acc p q HV Hq Hlen).
+Qed.
+
 (* where the stream stands once the reader is dropped: only segments without bytes are left in front
    of [later] *)
 Lemma after_drop_VB orig b acc p : VB b acc p -> Full (body_src b) -> TailOf orig (segs (body_src b)) ->
@@ -337,3 +380,28 @@ Proof.
         -- cbn [body_src]. destruct (chunked_read_len _ _ _ _ Ho) as [_ Hl].
            subst O. cbn [length] in Hl. lia.
 Qed.
+
+(* (fix F21) the discard of such a body never reports that it reached the end - whatever the fuel *)
+Lemma drain_ok_invalid fuel : forall b acc, IB b acc -> drain_ok fuel b = false.
+Proof.
+  induction fuel as [|fuel IH]; intros b acc HI; [reflexivity|].
+  destruct b as [r|c|s|s]; cbn [IB] in HI; try contradiction.
+  - cbn [drain_ok body_read]. rewrite (fixed_read_pos 1024 r) by lia.
+    destruct (N.eqb_spec (f_remaining r) 0) as [E|E]; [lia|].
+    destruct (buf_read (N.min (f_remaining r) 1024) (f_src r)) as [out s'] eqn:Ebr.
+    apply buf_read_spec in Ebr. destruct Ebr as [B1 [B2 [B3 B4]]].
+    destruct out as [|o out]; cbn [lift]; [reflexivity|].
+    remember (o :: out) as O eqn:EO. rewrite EO. rewrite <- EO.
+    apply (IH _ acc). cbn [IB f_src f_remaining]. rewrite B1, lenN_app in HI. lia.
+  - destruct HI as [Hb [w HD]]. cbn [drain_ok body_read].
+    assert (HU : Invalid w <> Unspecified) by discriminate.
+    destruct (chunked_read_spec 1024 c acc _ ltac:(lia) Hb HD HU)
+      as [[e [c' [He _]]]|[out [c' [Ho [Hd' [Hb' Hnil]]]]]].
+    + rewrite He. reflexivity.
+    + rewrite Ho. cbn [lift]. destruct out as [|o out].
+      * exfalso. rewrite (done_dec c' _ (Hnil eq_refl)) in Hd'. discriminate.
+      * apply (IH _ (acc ++ o :: out)). cbn [IB]. split; [exact Hb'|]. exists w. exact Hd'.
+Qed.
+
+Lemma located_invalid failed b acc : IB b acc -> located failed b = false.
+Proof. intros HI. unfold located. rewrite (drain_ok_invalid _ b acc HI). apply andb_false_r. Qed.
